@@ -10,6 +10,10 @@ MON_C16 = {"Mon_CurrentUnique", "Mon_CurrentSchedule", "Mon_Next", "Mon_Monotone
 NONLINEAR = {"R_AtElapsedMax", "R_ProductWraps", "R_ProductWrapsSmall", "R_ProductNegative", "R_JustAboveBuffer"}
 NL_PERIODS = [3, 25, 30, 1000, 3600, 65537, 1000003, 16777259, 2147483659, 4294967291, 4294967295, 7, 86400, 4, 1023, 4294901760]
 
+QUICK_CORE = ["R_BelowGuard", "R_AtGuard", "R_Pow2m1BelowGuard", "R_Pow2m1AtGuard", "R_MaxPeriodBelowGuard", "R_Max",
+              "R_JustAboveBuffer", "R_ProductWraps", "T_OnBoundaryFar", "T_BeforeBoundaryFar", "T_MaxAll",
+              "T_BigPeriodBefore", "T_Pow2m1Before", "T_MaxElapsed"]
+
 # boundary classes of Apa_RoundTime.tla: name -> (call kind, period free?, genesis free?)
 CLASSES = {
     "R_BelowGuard": ("TOR", 1, 1), "R_TwoBelowGuard": ("TOR", 1, 1), "R_AtGuard": ("TOR", 1, 1),
@@ -159,8 +163,15 @@ def run(ctx, monitors):
     ntlc = len(vecs)
 
     # ---- ... and Apalache: lemmas + 64-bit boundary witnesses (one SMT call per group of classes)
-    groups = [[c for c in CLASSES if c.startswith("R_")], [c for c in CLASSES if c.startswith("T_")]]
-    seeds = [ctx.seed] if q else [ctx.seed, ctx.seed + 101, ctx.seed + 202]
+    if q:
+        # quick: the classes that sit on the guard / the boundaries always, 4 more chosen by the seed; one call
+        rest = sorted(c for c in CLASSES if c not in QUICK_CORE)
+        extra = [rest[(ctx.seed * 7 + 11 * i) % len(rest)] for i in range(4)]
+        groups = [QUICK_CORE + sorted(set(extra))]
+        seeds = [ctx.seed]
+    else:
+        groups = [[c for c in CLASSES if c.startswith("R_")], [c for c in CLASSES if c.startswith("T_")]]
+        seeds = [ctx.seed, ctx.seed + 101, ctx.seed + 202]
     jobs = []
     dl = ctx.sub("apalache-lemmas")
     jobs.append(lambda: ("lemma", None, run_apalache(ctx, dl, "Apa_RoundTime", None, "LemmaInit", "LemmaNext", "Lemmas")))
@@ -197,7 +208,7 @@ def run(ctx, monitors):
     write_scripts(inp, vecs)
 
     # ---- 3. real code
-    nrand = 60 if q else 900
+    nrand = 40 if q else 900
     trace = run_harness(ctx, "./common", "TestVerifRoundTime", "roundtime.ndjson",
                         env={"VERIF_IN": inp, "VERIF_RANDOM": str(nrand)})
     big = trace + ".big"
